@@ -166,7 +166,7 @@ def rooms(
         dtype=int,
     )
 
-    if len(y_splits) != len(set(y_splits)):
+    if layout_height < 1 or np.any(np.diff(y_splits) < 2):
         raise ValueError(
             f'insufficient height ({shape.height}) for layout ({layout})'
         )
@@ -178,7 +178,7 @@ def rooms(
         dtype=int,
     )
 
-    if len(x_splits) != len(set(x_splits)):
+    if layout_width < 1 or np.any(np.diff(x_splits) < 2):
         raise ValueError(
             f'insufficient width ({shape.width}) for layout ({layout})'
         )
@@ -535,7 +535,7 @@ def memory_rooms(
         dtype=int,
     )
 
-    if len(y_splits) != len(set(y_splits)):
+    if layout_height < 1 or np.any(np.diff(y_splits) < 2):
         raise ValueError(
             f'insufficient shape.height ({shape.height}) for layout ({layout})'
         )
@@ -547,7 +547,7 @@ def memory_rooms(
         dtype=int,
     )
 
-    if len(x_splits) != len(set(x_splits)):
+    if layout_width < 1 or np.any(np.diff(x_splits) < 2):
         raise ValueError(
             f'insufficient shape.width ({shape.width}) for layout ({layout})'
         )
